@@ -1,4 +1,4 @@
 INIT Init
 NEXT Next
-INVARIANT Lemma
+INVARIANTS Lemma EntLemma
 CHECK_DEADLOCK FALSE
